@@ -30,6 +30,7 @@ def check_sympd():
     g1 = R[['A', 'S']].groupby('A').median().reset_index()
     g2 = M[['A', 'S']].groupby('A').median().reset_index()
     same('groupby1 median', g1.values.tolist(), [list(r) for r in g2.rows])
+    same('groupby sort=False', R[['A', 'S']].groupby('A', sort=False).median().reset_index().values.tolist(), [list(r) for r in M[['A', 'S']].groupby('A', sort=False).median().reset_index().rows])
     same('groupby mean', R[['A', 'S']].groupby('A').mean().reset_index().values.tolist(), [list(r) for r in M[['A', 'S']].groupby('A').mean().reset_index().rows])
     for asc in (True, False):
         s1 = R.sort_values(by='S', ascending=asc, kind='stable') if False else R.sort_values(by='S', ascending=asc)
@@ -61,7 +62,7 @@ def check_sympd():
     same('median even/odd', (float(pd.Series([3.0, 1.0, 2.0, 10.0]).median()), float(pd.Series([3.0, 1.0, 2.0]).median())), (sympd.median([3.0, 1.0, 2.0, 10.0]), sympd.median([3.0, 1.0, 2.0])))
     if probs:
         raise HarnessError('sympd disagrees with pandas: ' + '; '.join(probs[:4]))
-    return 26
+    return 27
 
 
 def check_xnp():
